@@ -2,6 +2,16 @@ import MQ.Model.Core
 /-! Frame facts about `stepRun`: which parts of the state a step can change. -/
 namespace MQ
 
+/-- the position a writer thread has claimed but not yet published -/
+def PC.claim : PC → Option Nat
+  | .tg h | .wr h _ | .ts h _ => some h
+  | _ => none
+
+/-- pcs of `add_stream` (the thread owns an unpublished stream id `ns`) -/
+def PC.addPC : PC → Bool
+  | .a1 | .a2 _ | .a3 _ _ _ => true
+  | _ => false
+
 /-- the ring-relevant part of a state -/
 structure Ring where
   N : Nat
@@ -16,10 +26,13 @@ structure Ring where
   log : List Nat
   dlv : Nat → List Nat
   start : Nat → Nat
+  sused : Nat → Bool
+  est : Nat → Bool
 
 def St.ring (σ : St) : Ring :=
   { N := σ.N, head := σ.head, tc := σ.tc, tag := σ.tag, cont := σ.cont, pos := σ.pos, groups := σ.groups,
-    cur := σ.cur, nextGrp := σ.nextGrp, log := σ.log, dlv := σ.dlv, start := σ.start }
+    cur := σ.cur, nextGrp := σ.nextGrp, log := σ.log, dlv := σ.dlv, start := σ.start,
+    sused := σ.sused, est := σ.est }
 
 @[simp] theorem ring_setTh (σ : St) (t f) : (σ.setTh t f).ring = σ.ring := rfl
 @[simp] theorem ring_goto (σ : St) (t pc) : (σ.goto t pc).ring = σ.ring := rfl
